@@ -715,9 +715,9 @@ SPEC = {
     "C08": {
         "pre": pre,
         "parts": [
-            {"name": "io", "harness": "io", "model": None, "runtime": True, "build": build_io, "gen": gen_io,
+            {"name": "io", "harness": "io", "model": "IoShim", "runtime": True, "build": build_io, "gen": gen_io,
              "post": post_io, "ok_status": ("OK", "HANG", "BUDGET", "SEGV", "DATAERR"),
-             "nontrivial": lambda s: s["hist"].get("note epctl", 0) >= 2},
+             "nontrivial": lambda s: sum(v for k, v in s["hist"].items() if k.startswith("note epctl")) >= 2},
             {"name": "io_asan", "harness": "io", "model": None, "build": build_io_asan, "gen": gen_asan,
              "post": post_asan, "ok_status": ("OK", "ASAN", "SEGV")},
         ],
